@@ -521,21 +521,6 @@ def check_tuple_index(idx: Index, rep: Report) -> None:
             r.ok(inst, f"{loc} text validated by fullmatch({ok[1]!r}) ⊆ [0-9]+ before int()")
         else:
             r.fail(inst, Finding("C07.R5", f.fq, "index-language", f"the tuple index is validated with {ok[1]!r}, which also admits `{rx.show(ok[0])}`: not a plain non-negative decimal", loc))
-    # consumers: subscripts by `<operand>.index` are dominated by an upper-bound test
-    g = idx.func("xdsl/parser/core.py", "Parser.resolve_operand")
-    subs = [n for n in walk_local(g.node) if isinstance(n, ast.Subscript) and unparse(n.slice).endswith(".index") and isinstance(n.ctx, ast.Load) and "ssa_values" in unparse(n.value)]
-    if not subs:
-        raise AnalysisError(f"{g.fq}: subscript of the result tuple by the operand index not found")
-    for n in subs:
-        key = unparse(n.slice)
-        facts = text_facts(g.node, n)
-        bounded = any((not pol) and re.fullmatch(rf"{re.escape(key)} >= \w+", t) for t, pol in facts) or any(pol and re.fullmatch(rf"{re.escape(key)} < \w+", t) for t, pol in facts)
-        if bounded:
-            r.ok(f"{g.fq}:[{key}]", f"{g.module.relpath}:{n.lineno} subscript guarded by the tuple size")
-        else:
-            r.fail(f"{g.fq}:[{key}]", Finding("C07.R5", g.fq, "index-upper-bound", f"`{unparse(n)}` is not guarded by a comparison of `{key}` with the tuple size: `%0#7` raises IndexError", f"{g.module.relpath}:{n.lineno}"))
-
-
     # upper bound where the index subscripts a tuple of SSA values
     from ..astutil import range_bounds
     from ..dataflow import resolved_text as _rt
@@ -555,7 +540,9 @@ def check_tuple_index(idx: Index, rep: Report) -> None:
             except Exception:
                 continue
             base = _rt(gcfg, sub.value, at)
-            if not (re.fullmatch(r"self\.ssa_values\[[^\]]+\]", unparse(sub.value)) or (g.name == "_register_ssa_definition" and unparse(sub.value) == "values")):
+            if not (re.fullmatch(r"self\.ssa_values\[[^\]]+\]", unparse(sub.value)) or re.fullmatch(r"self\.ssa_values(\[.+\]|\.get\(.+\))", base) or (g.name == "_register_ssa_definition" and unparse(sub.value) == "values")):
+                continue
+            if unparse(sub.slice) in ("0", "-1"):
                 continue
             ix = unparse(sub.slice)
             n_sub += 1
